@@ -186,6 +186,12 @@ def run_disk(w, ps, inp, out, S, state, classes):
     sysblock = set(inp["sysblock"])
     listing = [(n, devs[n]["layout"], devs[n]["blocks"] * S, [v * S for v in devs[n]["c"]])
                for n in _order(devs, S)]
+    if (len(listing) + int(S)) % 3 == 0:
+        # an earlier poll saw the same listing before sysfs knew the disks (hot-plug /
+        # early boot): the answer of the call under test depends on the tables NOW
+        sim_c09.set_disks(w, listing, set())
+        _call(ps.disk_io_counters, perdisk=False, nowrap=False)
+        classes.add("disk:earlier-poll-without-sysfs")
     sim_c09.set_disks(w, listing, sysblock)
     exp_per = {n: {f: v * S for f, v in d.items()} for n, d in _objmap(out["perdisk"]).items()}
     exp_total = None if out["total"] == NONE else {f: v * S for f, v in out["total"].items()}
